@@ -64,7 +64,8 @@ def generate(seed: int, tier: str, index: int) -> dict:
             script.append({"op": "delete_stream", "which": w, "ghost": ghost, "how": rng.choice(["ajax", "rest", "form"])})
         elif r < 0.42:
             fn = rng.choice(fnames)
-            entry = rng.choice([forged_file(rng, fn), forged_file(rng, fn), "bbb/bbb_t1.mp4"])
+            entry = rng.choice([forged_file(rng, fn), forged_file(rng, fn), forged_file(rng, fn), "bbb/bbb_t1.mp4",
+                                "bbb/bbb_v7_enc.mp4", "bbb/bbb_a1_enc.mp4"])     # the two encrypted files share a key
             st = {"op": "upload", "which": w, "ghost": ghost, "file": entry}
             if rng.random() < 0.1:
                 st["truncate"] = rng.choice([1, 7, 40, 200])
